@@ -295,7 +295,11 @@ pub fn run(ctx: &Ctx) -> (Report, Meta) {
         // sol_many agrees with sol
         if let Ok(many) = sol.sol_many(&inside) {
             for (k, &t) in inside.iter().enumerate() {
-                if !bits_eq(&many[k], &sol.sol(t).unwrap()) {
+                let single = match sol.sol(t) {
+                    Ok(v) => v,
+                    Err(_) => continue,
+                };
+                if !bits_eq(&many[k], &single) {
                     rep.violate(&format!("C06/sol_many_differs/{}/{}", m, cls), format!("sol_many and sol differ at t = {:e}", t), &case_id, case.clone());
                     break;
                 }
@@ -308,7 +312,13 @@ pub fn run(ctx: &Ctx) -> (Report, Meta) {
         let stride = (sol.t.len() / 150).max(1);
         for k in (0..sol.t.len()).filter(|k| k % stride == 0 || *k + 2 >= sol.t.len() || *k < 2) {
             let t = sol.t[k];
-            let v = sol.sol(t).unwrap();
+            let v = match sol.sol(t) {
+                Ok(v) => v,
+                Err(e) => {
+                    rep.violate(&format!("C06/sol_fails_at_sample/{}/{}", m, cls), format!("sol(t[{}]={:e}) failed: {:?}", k, t, e), &case_id, case.clone());
+                    break;
+                }
+            };
             let h = if k + 1 < sol.t.len() { sol.t[k + 1] - t } else { t - sol.t[k - 1] };
             let h2 = if k > 0 { t - sol.t[k - 1] } else { h };
             let hh = h.abs().max(h2.abs());
